@@ -258,8 +258,12 @@ class EnsembleEvaluator:
             self._config.gradient.perturbation_min_success,
         )
         assert self._config.realizations.realization_min_success is not None
+        # If the function evaluation at this point did not produce values (too
+        # few realizations, or a realization filter that selects nothing), there
+        # are no weights for a gradient either:
         if (
-            np.count_nonzero(~failed_realizations)
+            self._cache_for_gradient.functions is not None
+            and np.count_nonzero(~failed_realizations)
             >= self._config.realizations.realization_min_success
         ):
             gradients = _none_if_too_few(
